@@ -9,6 +9,7 @@
 (*                                 <<"s", sel bits, cases>>, case = [pats, items], pats = sequence  *)
 (*                                 of <<mask, val>> pairs (empty sequence with dflt = default)       *)
 (*         [k |-> "conn", l, r]                                                                    *)
+(*         [k |-> "memrd", m, A, Y]   asynchronous read port of memory m                            *)
 (* Operand extension: binary cells extend both operands to a common width, signed iff both         *)
 (* *_SIGNED are set; results are truncated to Y_WIDTH.  All values are exact integers.             *)
 EXTENDS AmBits
@@ -72,17 +73,56 @@ FirstCase(cases, j, x, w, acc) ==
          THEN RunItems(cs.items, 1, w, acc)
          ELSE FirstCase(cases, j + 1, x, w, acc)
 
-EvalNode(nd, w) ==
+(* ---- memories ($meminit_v2 / $memrd_v2 / $memwr_v2) ---- *)
+(* memv: sequence (one entry per memory) of sequences of row patterns; address a is row a + 1.          *)
+(* Reads beyond the last row are undefined in RTLIL (the harness never addresses them): read as 0.     *)
+RowOf(memv, m, a) == IF a < Len(memv[m]) THEN memv[m][a + 1] ELSE 0
+MergeBits(old, d, en, W) == FromBits([i \in 0..(W - 1) |-> IF Bit(en, i) = 1 THEN Bit(d, i) ELSE Bit(old, i)], W)
+
+EvalNode(nd, w, memv) ==
     CASE nd.k = "cell" -> SetBits(w, nd.Y, CellValue(nd, w))
       [] nd.k = "proc" -> RunItems(nd.items, 1, w, w)
       [] nd.k = "conn" -> SetBits(w, nd.l, UVal(w, nd.r))
+      [] nd.k = "memrd" -> SetBits(w, nd.Y, RowOf(memv, nd.m, UVal(w, nd.A)))      \* asynchronous read port
 
-RECURSIVE SettleN(_, _, _)
-SettleN(nodes, n, w) == IF n = 0 THEN w ELSE EvalNode(nodes[n], SettleN(nodes, n - 1, w))
-Settle(nodes, w) == SettleN(nodes, Len(nodes), w)
+RECURSIVE SettleN(_, _, _, _)
+SettleN(nodes, n, w, memv) == IF n = 0 THEN w ELSE EvalNode(nodes[n], SettleN(nodes, n - 1, w, memv), memv)
+Settle(nodes, w, memv) == SettleN(nodes, Len(nodes), w, memv)
 (* the order in which the harness listed the nodes is not trusted: the result must be a solution of *)
 (* all node equations (unique for an acyclic netlist)                                               *)
-Consistent(nodes, w) == \A n \in 1..Len(nodes) : EvalNode(nodes[n], w) = w
+Consistent(nodes, w, memv) == \A n \in 1..Len(nodes) : EvalNode(nodes[n], w, memv) = w
+
+(* write port p = [m, A, D, EN, CLK, pol]: at its active edge, with the values before the event, the enabled *)
+(* bits of the addressed row are replaced; an address beyond the last row changes nothing                     *)
+PortEdge(p, wOld, wMid) == BitVal(wOld, p.CLK) # p.pol /\ BitVal(wMid, p.CLK) = p.pol
+RECURSIVE ApplyWrites(_, _, _, _, _)
+ApplyWrites(wrs, n, wOld, wMid, memv) ==
+    IF n = 0 THEN memv
+    ELSE LET m1 == ApplyWrites(wrs, n - 1, wOld, wMid, memv)
+             p == wrs[n]
+             a == UVal(wOld, p.A) IN
+         IF PortEdge(p, wOld, wMid) /\ a < Len(m1[p.m])
+         THEN [m1 EXCEPT ![p.m][a + 1] = MergeBits(@, UVal(wOld, p.D), UVal(wOld, p.EN), Len(p.D))]
+         ELSE m1
+(* synchronous read port p = [m, A, Y, EN, CLK, pol, trans]: when enabled at its active edge it captures the  *)
+(* addressed row as it was before the event, patched with the data of the write ports in its transparency set *)
+(* that write the same address at the same event                                                               *)
+RECURSIVE Patch(_, _, _, _, _, _, _)
+Patch(row, a, trans, n, wrs, wOld, wMid) ==
+    IF n = 0 THEN row
+    ELSE LET r1 == Patch(row, a, trans, n - 1, wrs, wOld, wMid)
+             q == wrs[trans[n]] IN
+         IF PortEdge(q, wOld, wMid) /\ UVal(wOld, q.A) = a
+         THEN MergeBits(r1, UVal(wOld, q.D), UVal(wOld, q.EN), Len(q.D)) ELSE r1
+RECURSIVE ApplyReads(_, _, _, _, _, _, _)
+ApplyReads(rds, n, wrs, wOld, wMid, memv, w) ==
+    IF n = 0 THEN w
+    ELSE LET w1 == ApplyReads(rds, n - 1, wrs, wOld, wMid, memv, w)
+             p == rds[n]
+             a == UVal(wOld, p.A) IN
+         IF PortEdge(p, wOld, wMid) /\ BitVal(wOld, p.EN) = 1
+         THEN SetBits(w1, p.Y, Patch(RowOf(memv, p.m, a), a, p.trans, Len(p.trans), wrs, wOld, wMid))
+         ELSE w1
 
 (* ---- registers ---- *)
 (* ff = [D, Q, CLK, pol, ARST, arpol, arval]; ARST = 0 means no asynchronous reset ($dff)           *)
